@@ -266,7 +266,7 @@ func HC01_Step() {
 // HC01_Two: two symbolic operations in a row (thorough tier).
 func HC01_Two() {
 	x := hNew(1, 6, 1+vChoice("capinc", 2), 1)
-	x.prefix([5]int{1, 3, 4, 8, 9}[vChoice("prefix", 5)])
+	x.prefix([3]int{1, 3, 8}[vChoice("prefix", 3)])
 	x.legalStep(vChoice("op1", hNOps))
 	x.inv()
 	x.legalStepSmall([5]int{0, 1, 2, 8, 9}[vChoice("op2", 5)]) // second step: reduced argument range
